@@ -407,6 +407,9 @@ func (c *L2) NextBlock(dt time.Duration) BlockResult {
 	return br
 }
 
+// ResetEngine forgets the engine's validator set (a chain restarted with a fresh consensus state).
+func (c *L2) ResetEngine() { c.ValSet = cmttypes.NewValidatorSet(nil) }
+
 // EngineSet returns consensus address (hex) → power of the engine's current set.
 func (c *L2) EngineSet() map[string]int64 {
 	out := map[string]int64{}
